@@ -26,6 +26,8 @@ type ElectionOracle struct {
 	lastT   map[string]int64
 	maxSent int64
 	fenced  map[int64]map[string]*proto.EntryId
+	// leaderSent: the node BecomeLeader(term) was sent to
+	leaderSent map[int64]string
 }
 
 func (o *ElectionOracle) Attach(c *Cluster, obs *Obs) {
@@ -73,6 +75,13 @@ func (o *ElectionOracle) onRPC(e Event) {
 			o.maxSent = e.Term
 		}
 		if e.Kind == "send:BecomeLeader" {
+			if prev, ok := o.leaderSent[e.Term]; ok && prev != e.Node {
+				s.Fail("two-leaders-installed-in-term", fmt.Sprintf("BecomeLeader(term %d) sent to %s after it had been sent to %s", e.Term, e.Node, prev))
+			}
+			if o.leaderSent == nil {
+				o.leaderSent = map[int64]string{}
+			}
+			o.leaderSent[e.Term] = e.Node
 			o.checkBecomeLeader(e, md.Ensemble, md.RemovedNodes)
 		}
 	}
